@@ -722,6 +722,10 @@ peg::parser! {
             !brace_expr() !stop_condition() "{" {}
 
         // Parses a complete brace expression, with no prefix or suffix.
+        // N.B. Cached: a "{" that does not start a brace expression is otherwise tried twice at
+        // every nesting level (once as an expression, once by the negative lookahead of the text
+        // rule), which makes a word like "{{{{x}}}}" take time exponential in its depth.
+        #[cache]
         pub(crate) rule brace_expr() -> BraceExpression =
             "{" inner:brace_expr_inner() "}" { inner }
 
